@@ -88,6 +88,7 @@ class Oblig:
 class Ctx:
     def __init__(self, decisions=(), base_pc=(), parent=None, opts=None, base_tfacts=()):
         self.tfacts = []
+        self._tf_seen = {}
         self.dec = list(decisions)
         self.pos = 0
         self.trace = []
@@ -102,13 +103,14 @@ class Ctx:
             self.solver.push()
             self.pc = list(parent.pc)
             self.tfacts = list(parent.tfacts)
+            self._tf_seen = dict(parent._tf_seen)
             self.ghost = {k: (list(v) if isinstance(v, list) else v) for k, v in parent.ghost.items()}
         else:
             self.ax = Axioms()
             self.ax.extra_rules = list((opts or {}).get("extra_rules", []))
             self.ax.fuel = (opts or {}).get("fuel", 1)
             self.ax_inst = []
-            self.solver = AbsSolver((opts or {}).get("feas_ms", FEAS_TIMEOUT_MS))
+            self.solver = AbsSolver((opts or {}).get("feas_ms", FEAS_TIMEOUT_MS), nla=(opts or {}).get("nla", True))
         self.obligs = []
         self.notes = {"inlined": set(), "unrolled": {}, "native": set(), "assumed_contracts": set()}
         self.counters = {}
@@ -136,6 +138,10 @@ class Ctx:
         z = z3.simplify(z)
         if z3.is_true(z):
             return
+        k = z.get_id()
+        if k in self._tf_seen and self._tf_seen[k].eq(z):
+            return
+        self._tf_seen[k] = z
         self.tfacts.append(z)
         self.solver.add_fact(z)
 
@@ -261,9 +267,13 @@ class Ctx:
 
 def explore(run, base_pc=(), parent=None, opts=None, max_paths=4000, base_tfacts=()):
     """run(ctx) -> value.  Returns list[Path]."""
+    import time as _t
     work = [[]]
     paths = []
+    deadline = (opts or {}).get("deadline")
     while work:
+        if deadline is not None and _t.time() > deadline:
+            raise Unsupported("generation budget of this theorem exhausted (too many / too expensive paths)")
         dec = work.pop()
         try:
             ctx = Ctx(dec, base_pc, parent, opts, base_tfacts)
